@@ -204,10 +204,15 @@ func (p *ReaderSkipDecoder) Next(t TType) (b []byte, err error) {
 func (p *ReaderSkipDecoder) SkipN(n int) (buf []byte, err error) {
 	p.Grow(n)
 	buf = p.b[p.n : p.n+n]
-	for i := 0; i < n && err == nil; { // io.ReadFull(buf)
+	i := 0
+	for i < n && err == nil { // io.ReadFull(buf)
 		var nn int
 		nn, err = p.r.Read(buf[i:])
 		i += nn
+	}
+	if i >= n {
+		// all n bytes arrived, possibly together with the source's error (as io.ReadFull)
+		err = nil
 	}
 	if err != nil {
 		return
